@@ -783,6 +783,43 @@ fn run_json(drv: &mut Drv, out: &mut Out, v: &serde_json::Value, verbose: bool) 
     out.class(format!("json:{}{}", json_kind(v), if float_off { ":float-off" } else { "" }));
 }
 
+/// One bare float through the real `ser` then `de`; the bit pattern that comes back is the case payload
+/// (the Lean side answers with `textCodec`).
+fn run_json_float(drv: &mut Drv, out: &mut Out, bits: u64, verbose: bool) {
+    let f = f64::from_bits(bits);
+    let v = match serde_json::Number::from_f64(f) {
+        Some(n) => serde_json::Value::Number(n),
+        None => return,
+    };
+    let replay = json!({"area": "jfloat", "bits": format!("{:016x}", bits)});
+    let text = call!(drv, "json_ser_value", fn(serde_json::Value) -> String, v.clone());
+    let back = match &text {
+        Ok(t) => call!(drv, "json_de_value", fn(String) -> serde_json::Value, t.clone()),
+        Err(e) => Err(e.clone()),
+    };
+    if verbose {
+        println!("ser: {:?}\nde: {:?}", text, back);
+    }
+    out.count("json:float-bits");
+    let payload = match &back {
+        Ok(serde_json::Value::Number(n)) if n.is_f64() => {
+            let b = n.as_f64().unwrap().to_bits();
+            if b != bits {
+                out.oracle_fail(FLOAT_FP, FLOAT_WHAT, replay);
+            }
+            format!("(ok {})", b)
+        }
+        other => {
+            out.oracle_fail("json:float-not-a-float", &format!("a float does not come back as a float: {:?}", other).chars().take(200).collect::<String>(), replay);
+            "none".to_string()
+        }
+    };
+    if f != 0.0 && f.abs() != 1.0 {
+        out.class(format!("jfloat:exp{}", ((bits >> 52) & 0x7ff) / 64));
+    }
+    out.case(&format!("json float {}", bits), &payload);
+}
+
 // ----------------------------------------------------------------------------------------- main
 
 fn replay(drv: &mut Drv, out: &mut Out, case: &serde_json::Value, verbose: bool) {
@@ -798,6 +835,7 @@ fn replay(drv: &mut Drv, out: &mut Out, case: &serde_json::Value, verbose: bool)
         "sint" => run_sint(drv, out, geti("op"), &gets("s"), &gets("t"), geti("i"), verbose),
         "sstr" => run_sstr(drv, out, geti("op"), &gets("s"), &gets("t"), geti("i"), geti("j"), verbose),
         "json" => run_json(drv, out, &bits_decode(&case["value"]), verbose),
+        "jfloat" => run_json_float(drv, out, u64::from_str_radix(case["bits"].as_str().unwrap_or("0"), 16).unwrap_or(0), verbose),
         "derive" => derive::replay(drv, out, case),
         "typed" => typed::replay(drv, out, case),
         a => println!("unknown replay area {:?}", a),
@@ -958,6 +996,20 @@ fn main() {
     for _ in 0..scale(600, 8000) {
         let v = gen_json(&mut rng, 3);
         run_json(&mut drv, &mut out, &v, false);
+    }
+    // bare floats: bit patterns through ser / de (correspondence with the model's `textCodec`)
+    let mut rng = Rng::new(args.seed, 1908);
+    run_json_float(&mut drv, &mut out, 0xdc0d6881c1e92ae4, false);
+    for _ in 0..scale(500, 8000) {
+        let bits = match rng.below(6) {
+            0 => (rng.range(-1000, 1000) as f64 / 8.0).to_bits(),
+            1 => rng.next() & 0x800f_ffff_ffff_ffff,          // subnormals
+            2 => (rng.next() & 0x800f_ffff_ffff_ffff) | (0x7fe << 52), // largest exponents
+            _ => rng.next(),
+        };
+        if f64::from_bits(bits).is_finite() {
+            run_json_float(&mut drv, &mut out, bits, false);
+        }
     }
     // typed JSON round trips through derived Serialize / Deserialize
     typed::run(&mut drv, &mut out, args.seed, big);
